@@ -18,6 +18,8 @@ UNIVERSE = [chr(i) for i in range(0, 256)] + [" ", "　", " ", "А", "Ω", "
 
 
 def run(ck, prog):
+    from props.common import check_memos
+    ck.attempt(check_memos, ck, prog)
     ck.explanation = (
         "validateSequence's loop body is folded for every character of a 264-character universe (all Latin-1 code "
         "points plus Unicode spaces and look-alike letters): the body tests the character only through membership in "
@@ -25,12 +27,8 @@ def run(ck, prog):
         "typestate walk (raw -> upper-cased -> validated) over Sequence.__init__; dominance facts are read from the "
         "statement structure.")
     ck.assumptions += ["semantics of str.upper / str.isspace / len as in CPython"]
-    _letters(ck, prog)
-    _validate(ck, prog)
-    _ctor(ck, prog)
-    _verify_type(ck, prog)
-    _sp_init(ck, prog)
-    _accessors(ck, prog)
+    for step in (_letters, _validate, _ctor, _verify_type, _sp_init, _accessors):
+        ck.attempt(step, ck, prog)
 
 
 def _letters(ck, prog):
